@@ -86,4 +86,11 @@ func init() {
 		Assumptions: commonAssumptions,
 		Rules:       []string{"C05/balance", "C05/semicolon", "C05/dead"},
 	}, ruleC05Balance, func(p *Program, r *Run) { ruleOpTables(p, r, "C05") })
+	register(PropertyMeta{
+		ID:          "C06",
+		Level:       "other",
+		Explanation: "Decided: (ctx) every exprContext literal that reaches the expression writer carries a scope whose provenance is the map Compile builds (directly, or through parameters fed by it at every call site) - so bindings are visible in every expression position, join conditions included; (one-reader) the scope map is consulted at exactly one site, in the identifier case of writeExpression, and the path facts there are: node is a QualifiedIdent, len(Parts) == 1, part not quoted - hence quoted identifiers, qualified names, function names, table names and aliases are never substituted; the scope is consulted before the built-in constants (order); (closed-value) the text stored for a let value is, by the class analysis of the derived grammar (C01), a Closed fragment and the only content of its buffer; (let-mode) let values are written with mode letExprMode; (after-query) the let hole is reached only with the query variable known nil; (order) the value is stored under the let's own name after being written; (copy) parameters are copied key by key into the fresh scope (C14 shows the caller's map is never written). Not decided: evaluation equivalence of the substituted SQL.",
+		Assumptions: commonAssumptions,
+		Rules:       []string{"C06/ctx", "C06/one-reader", "C06/order", "C06/closed-value", "C06/let-mode", "C06/after-query", "C06/copy"},
+	}, ruleC06)
 }
